@@ -112,8 +112,7 @@ def arm_name(conds):
     return " & ".join(out[-3:]) or "single path"
 
 
-def r1_partitions(ctx, P):
-    R = "C16.R1"
+def r1_partitions(ctx, P, R="C16.R1"):
     ctx.rule(R, "parts of every split are adjacent and their lengths (and capacities) add up; merge / into_flattened forms")
     S = Sym(P, inline_depth=2, opaque_names=OPAQUE, effect_names=EFFECTS)
     LEN = Affine({("LEN",): 1})
